@@ -20,6 +20,7 @@ import (
 	"encoding/hex"
 	"fmt"
 	"io"
+	"math/rand"
 	"net"
 	"os"
 	"os/exec"
@@ -52,7 +53,7 @@ func TestVerif_C35_NodeChild(t *testing.T) {
 		}
 	}
 	calls := &c35Rec{}
-	ln, err := net.Listen("tcp", "127.0.0.1:0")
+	ln, err := c35Listen()
 	if err != nil {
 		fmt.Println("ERR", err)
 		os.Exit(3)
@@ -212,7 +213,7 @@ func (n *c35Node) stat() (alloc uint64, calls []string, ok bool) {
 // c35Send writes header+stream on a new connection, half-closes and reads
 // everything until the node closes the connection.
 func c35Send(addr string, data []byte) ([]byte, error) {
-	conn, err := net.DialTimeout("tcp", addr, 10*time.Second)
+	conn, err := c35Dial(addr)
 	if err != nil {
 		return nil, err
 	}
@@ -262,7 +263,8 @@ func TestVerif_C35_Node(t *testing.T) {
 			var err error
 			if node, err = c35StartNode(); err != nil {
 				node = nil
-				rt.Skipf("infrastructure: %v", err)
+				rec.Label("inconclusive:infrastructure")
+				return
 			}
 		}
 		header := byte(MuxClusterHeader)
@@ -304,7 +306,8 @@ func TestVerif_C35_Node(t *testing.T) {
 		if !ok {
 			node.stop()
 			node = nil
-			rt.Skipf("infrastructure: control channel")
+			rec.Label("inconclusive:infrastructure")
+			return
 		}
 		_, serr := c35Send(node.addr, wire)
 		a1, got, ok := node.stat()
@@ -385,4 +388,53 @@ func TestVerif_C35_Node(t *testing.T) {
 			rec.Label("reached-store")
 		}
 	})
+}
+
+// ---- infrastructure helpers (not part of any oracle) ----
+
+// c35Dial connects to addr from a random loopback source address 127.x.y.z.
+// Sockets of a client that closes (or half-closes) first stay in TIME_WAIT for
+// 60 s; with 127.0.0.1 as the only source address, thousands of short
+// connections per second from many check processes would leave no free port
+// for bind(127.0.0.1:0), i.e. for every new listener on the machine. Spreading
+// the client side over 127/8 keeps those sockets away from 127.0.0.1. A few
+// retries with back-off absorb transient failures.
+func c35Dial(addr string) (net.Conn, error) {
+	var last error
+	for try := 0; try < 5; try++ {
+		d := net.Dialer{Timeout: 10 * time.Second, LocalAddr: &net.TCPAddr{IP: net.IPv4(127, byte(1+rand.Intn(250)), byte(rand.Intn(256)), byte(1+rand.Intn(250)))}}
+		c, err := d.Dial("tcp", addr)
+		if err == nil {
+			return c, nil
+		}
+		last = err
+		time.Sleep(time.Duration(25*(try+1)) * time.Millisecond)
+	}
+	return nil, last
+}
+
+// c35Listen listens on 127.0.0.1:0, retrying a few times.
+func c35Listen() (net.Listener, error) {
+	var last error
+	for try := 0; try < 5; try++ {
+		ln, err := net.Listen("tcp", "127.0.0.1:0")
+		if err == nil {
+			return ln, nil
+		}
+		last = err
+		time.Sleep(time.Duration(50*(try+1)) * time.Millisecond)
+	}
+	return nil, last
+}
+
+// c35Retry runs f up to five times with a short back-off.
+func c35Retry(f func() error) error {
+	var last error
+	for try := 0; try < 5; try++ {
+		if last = f(); last == nil {
+			return nil
+		}
+		time.Sleep(time.Duration(50*(try+1)) * time.Millisecond)
+	}
+	return last
 }
